@@ -617,7 +617,9 @@ func gnmidiffCmd(args []string) *rep.Result {
 			defer wg.Done()
 			for j := range jobs {
 				other := all[(j.i*7+13)%len(all)]
-				runGD(all[j.i], j.pkg, &conc.Ctx{C: cp, V: cp.Variants[j.v], Seed: j.s}, c.prop, res, other)
+				safely(res, "gnmidiff", all[j.i], func() {
+					runGD(all[j.i], j.pkg, &conc.Ctx{C: cp, V: cp.Variants[j.v], Seed: j.s}, c.prop, res, other)
+				})
 			}
 		}()
 	}
